@@ -2571,3 +2571,82 @@ def splice_starred_displays(tree):
         ast.fix_missing_locations(sts[0])
         done.append(name)
     return done
+
+
+# ---------------------------------------------------------------------------------------------------------------------
+# a recursive function that returns the list of leaves
+# ---------------------------------------------------------------------------------------------------------------------
+def list_walks_to_generators(tree):
+    """`def leaves(t): if t.is_functor: return leaves(t.left) + leaves(t.right); return [t.feature]` -- a recursive function
+    whose every return is a list display or a concatenation of its own calls and list displays, and whose every use is
+    walked once in order (for .. in f(x), enumerate(f(x)), list(f(x)), tuple(f(x)), f(x) + f(y) inside itself) -- is the
+    generator that yields the same items in the same order: `yield from leaves(t.left); yield from leaves(t.right)` /
+    `yield t.feature`."""
+    done = []
+    _link(tree)
+    for fn in [f for f in ast.walk(tree) if isinstance(f, ast.FunctionDef)]:
+        if fn.decorator_list or any(isinstance(n, (ast.Yield, ast.YieldFrom)) for n in ast.walk(fn)):
+            continue
+        rets = [r for r in ast.walk(fn) if isinstance(r, ast.Return)]
+        selfcall = lambda e: isinstance(e, ast.Call) and isinstance(e.func, ast.Name) and e.func.id == fn.name
+
+        def parts(e):
+            if isinstance(e, ast.BinOp) and isinstance(e.op, ast.Add):
+                a, b = parts(e.left), parts(e.right)
+                return None if a is None or b is None else a + b
+            if selfcall(e):
+                return [('rec', e)]
+            if isinstance(e, ast.List) and not any(isinstance(x, ast.Starred) for x in e.elts):
+                return [('item', x) for x in e.elts]
+            return None
+        if not rets or any(r.value is None or parts(r.value) is None for r in rets) or not any(selfcall(n) for n in ast.walk(fn)):
+            continue
+        # every use outside the function's own returns is a single ordered walk
+        host = getattr(fn, '_ofparent', None)
+        scope = host if host is not None else tree
+        uses = [n for n in ast.walk(scope) if isinstance(n, ast.Name) and n.id == fn.name and isinstance(n.ctx, ast.Load)]
+        ok = True
+        for u in uses:
+            par = getattr(u, '_ofparent', None)
+            if not (isinstance(par, ast.Call) and par.func is u):
+                ok = False
+                break
+            if any(p_ is fn for p_ in _ancestors(u)):
+                continue        # inside itself: a part of a return value (checked above)
+            g = getattr(par, '_ofparent', None)
+            walked = (isinstance(g, (ast.For, ast.comprehension)) and g.iter is par) or \
+                (isinstance(g, ast.Call) and isinstance(g.func, ast.Name) and g.func.id in ('enumerate', 'list', 'tuple', 'sorted', 'zip', 'iter', 'sum', 'max', 'min', 'any', 'all') and par in g.args) or \
+                (isinstance(g, ast.Call) and isinstance(g.func, ast.Attribute) and g.func.attr in ('join', 'extend') and par in g.args)
+            if not walked:
+                ok = False
+                break
+        if not ok or not uses:
+            continue
+
+        class _R(ast.NodeTransformer):
+            def visit_FunctionDef(self, node):
+                if node is fn:
+                    self.generic_visit(node)
+                return node
+
+            def visit_Lambda(self, node):
+                return node
+
+            def visit_Return(self, node):
+                new = []
+                for kind, e in parts(node.value):
+                    v = ast.YieldFrom(value=e) if kind == 'rec' else ast.Yield(value=e)
+                    new.append(ast.copy_location(ast.Expr(value=v), node))
+                new.append(ast.copy_location(ast.Return(value=None), node))
+                return new
+        _R().visit(fn)
+        ast.fix_missing_locations(fn)
+        done.append(fn.name)
+    return done
+
+
+def _ancestors(n):
+    p = getattr(n, '_ofparent', None)
+    while p is not None:
+        yield p
+        p = getattr(p, '_ofparent', None)
